@@ -88,49 +88,7 @@ func checkC17(c *Check) {
 	c.Expect("1/fork-lock", 8)
 
 	// ---------- 2: no shared mutable package state ----------
-	allow := map[string]string{
-		repoModule + "/ptracer.UseVMReadv": "monotone true→false switch between two equivalent read primitives after ENOSYS (unsynchronised write; recorded as an assumption)",
-	}
-	libPkgs := map[string]bool{}
-	for _, pk := range p.Pkgs {
-		if !strings.Contains(pk.PkgPath, "/cmd/") {
-			libPkgs[pk.PkgPath] = true
-		}
-	}
-	nGlobals := 0
-	for _, pk := range p.Pkgs {
-		if !libPkgs[pk.PkgPath] {
-			continue
-		}
-		sp := p.SSA.Package(pk.Types)
-		if sp == nil {
-			continue
-		}
-		var names []string
-		for n, m := range sp.Members {
-			if _, ok := m.(*ssa.Global); ok && !strings.HasPrefix(n, "init$") {
-				names = append(names, n)
-			}
-		}
-		sort.Strings(names)
-		for _, n := range names {
-			g := sp.Members[n].(*ssa.Global)
-			nGlobals++
-			ws := storesToGlobal(p, g)
-			key := strings.TrimPrefix(pk.PkgPath, repoModule+"/") + "." + n
-			full := pk.PkgPath + "." + n
-			switch {
-			case len(ws) == 0:
-				c.OK("2/no-shared-state", key, "-", "never written after initialisation")
-			case allow[full] != "":
-				c.OK("2/no-shared-state", key, ws[0], "allow-listed: "+allow[full])
-				c.Assume = append(c.Assume, "package variable "+full+" is written at run time: "+allow[full])
-			default:
-				c.Fail("2/no-shared-state", key, ws[0], "package-level variable is written at run time ("+strings.Join(ws, ", ")+"): concurrent runs share it")
-			}
-		}
-	}
-	c.Expect("2/no-shared-state", 15)
+	checkNoSharedState(c, "2/no-shared-state", func(path string) bool { return !strings.Contains(path, "/cmd/") }, 15)
 	// package-level mutable containers handed out: a returned value that aliases a package-level slice/map (covered for the filter export in C01)
 
 	// ---------- 3: tracer thread affinity ----------
@@ -300,4 +258,49 @@ func checkHostMutex(c *Check) {
 		c.Cond(okCallers, "5/env-mutex", "container.(host)"+h.Name()+":called-under-lock", p.Pos(h.Pos()), "only called with the mutex held", "this helper touches the transport without the mutex and is reachable from a method that does not hold it")
 	}
 	c.Expect("5/env-mutex", 10)
+}
+
+// checkNoSharedState: no package-level variable of the selected packages is
+// written, updated or handed out by address at run time (outside package
+// initialisation), except the allow-listed ones. State kept in a package
+// variable is shared by concurrent runs and survives from one run / one
+// trapped system call to the next; every guarantee of the form "decided from
+// the state of THIS run / THIS stop" needs its absence.
+func checkNoSharedState(c *Check, rule string, sel func(pkgPath string) bool, expect int) {
+	p := c.P
+	allow := map[string]string{
+		repoModule + "/ptracer.UseVMReadv": "monotone true→false switch between two equivalent read primitives after ENOSYS (unsynchronised write; recorded as an assumption)",
+	}
+	for _, pk := range p.Pkgs {
+		if !sel(pk.PkgPath) {
+			continue
+		}
+		sp := p.SSA.Package(pk.Types)
+		if sp == nil {
+			continue
+		}
+		var names []string
+		for n, m := range sp.Members {
+			if _, ok := m.(*ssa.Global); ok && !strings.HasPrefix(n, "init$") {
+				names = append(names, n)
+			}
+		}
+		sort.Strings(names)
+		for _, n := range names {
+			g := sp.Members[n].(*ssa.Global)
+			ws := append(storesToGlobal(p, g), sharedUsesOfGlobal(p, g)...)
+			key := strings.TrimPrefix(pk.PkgPath, repoModule+"/") + "." + n
+			full := pk.PkgPath + "." + n
+			switch {
+			case len(ws) == 0:
+				c.OK(rule, key, "-", "never written after initialisation")
+			case allow[full] != "":
+				c.OK(rule, key, ws[0], "allow-listed: "+allow[full])
+				c.Assume = append(c.Assume, "package variable "+full+" is written at run time: "+allow[full])
+			default:
+				c.Fail(rule, key, ws[0], "package-level variable is written / handed out by address at run time ("+strings.Join(ws, ", ")+"): it is shared by concurrent runs and carries state from one run or trapped call to the next")
+			}
+		}
+	}
+	c.Expect(rule, expect)
 }
